@@ -26,6 +26,17 @@ func (d *driver) runOtherFamily(fam, in string, sh *shards) bool {
 			d.runTranscriptProgram(sh.at(shard), k, line)
 		})
 		return true
+	case "proof":
+		cfg := getConf()
+		first := make([]bool, len(sh.ws))
+		forEachLine(in, len(sh.ws), func(shard, k int, line []byte) {
+			if !first[shard] {
+				first[shard] = true
+				sh.at(shard).emit(configEvent(cfg))
+			}
+			d.runProofProgram(sh.at(shard), k, line)
+		})
+		return true
 	case "msm":
 		getConf()
 		rr := &roundRobin{sh: sh}
